@@ -106,6 +106,18 @@ SilenceLateK(m, k) ==
        /\ \A x \in Other(m, c) : x > d
 SilenceLate(m) == \E k \in 1..Len(m.offs) : SilenceLateK(m, k)
 
+\* the client pings every live incarnation at its interval: never two pings closer than half an interval (two keep-alive loops), and
+\* never silence for two intervals (+ slack) after a ping that was answered in time while the link stays up (no keep-alive loop)
+PingTooOftenC(m, c) == LET ps == PingsOf(m, c) IN II(m) >= 100000 /\ \E k \in 1..(Len(ps) - 1) : ps[k + 1].t - ps[k].t < II(m) \div 2
+PingMissingC(m, c) ==
+    LET ps == PingsOf(m, c)
+    IN /\ Det(m, c) = {} /\ ps # <<>>
+       /\ LET last == ps[Len(ps)] IN
+            /\ AnsweredWithin(m, last, TT(m))
+            /\ EndOf(m, c) > last.t + 2 * II(m) + Slack(m)
+            /\ ~\E k \in 1..Len(m.offs) : m.offs[k].c = c /\ m.offs[k].on /\ m.offs[k].t >= last.t
+PingPacingWrong(m) == \E c \in Incs(m) : PingTooOftenC(m, c) \/ PingMissingC(m, c)
+
 RecRef(m, td) == MaxS({td} \cup { r \in RangeS(m.releases) : r >= td })
 RecBound(m, td) == RecRef(m, td) + (Us(m.p.recMs) * 3) \div 2 + 250000
 Recovered(m, c) ==
@@ -145,7 +157,7 @@ AnnounceWrong(m) == \E r \in RangeS(m.reqs) : r.pingI # Announce(m.p.cfgI) \/ r.
 
 Clause(name, b) == IF b THEN {name} ELSE {}
 MonVerdict(m) ==
-    Clause("DetectLate", \E c \in Incs(m) : DetectLateC(m, c)) \cup Clause("SilenceUndetected", SilenceLate(m))
+    Clause("DetectLate", \E c \in Incs(m) : DetectLateC(m, c)) \cup Clause("SilenceUndetected", SilenceLate(m)) \cup Clause("PingPacingWrong", PingPacingWrong(m))
     \cup Clause("NoRecovery", \E c \in Incs(m) : NoRecoveryC(m, c))
     \cup Clause("SpuriousClose", (\E c \in Incs(m) : SpuriousCloseC(m, c)) \/ SpuriousDisconnect(m))
     \cup Clause("PongWrongId", PongWrongId(m)) \cup Clause("PongMissing", PongMissing(m))
